@@ -183,6 +183,7 @@ struct Ctx {
     id: u64,
     nbatches: usize,
     max_xl_ulps: f64,
+    max_xl_window: f64,
 }
 impl Ctx {
     fn next_id(&mut self) -> u64 { self.id += 1; self.id }
@@ -382,10 +383,11 @@ fn check_batch<E: Elem>(ctx: &mut Ctx, rng: &mut Sm64, pred: &Pred<E>, x: &Array
                         for (ua, ub) in a.iter().zip(b.iter()) {
                             let (va, vb) = (f64::from_bits(*ua), f64::from_bits(*ub));
                             let mag = if xl.expo { (va.abs() + vb.abs()) * (1.0 + xl.scale * (1.0 + l1)) } else { va.abs() + vb.abs() + xl.scale * (1.0 + l1) };
-                            let tol = 64.0 * (p as f64 + 1.0) * o.eps * mag;
+                            let tol = 4.0 * (p as f64 + 1.0) * o.eps * mag;
                             let d = (va - vb).abs();
                             let ulps = d / (o.eps * (va.abs().max(vb.abs()).max(f64::MIN_POSITIVE)));
                             if ulps > ctx.max_xl_ulps { ctx.max_xl_ulps = ulps; }
+                            if tol > 0.0 && d / tol > ctx.max_xl_window { ctx.max_xl_window = d / tol; }
                             if !(d <= tol) {
                                 fail(B_LAYOUT, format!("{}: row {} {:?} gives {:e} but {:e} in row-major layout (window {:e})", name, i, xrows[i], va, vb, tol), &mut code, &mut what);
                             }
@@ -403,8 +405,10 @@ fn metamorph<E: Elem>(ctx: &mut Ctx, rng: &mut Sm64, model: &str, inst: &str, pr
     let batches = make_batches(rng, pool, ctx.nbatches);
     for b in batches {
         let id = ctx.next_id();
+        // own child generator per batch: a replay of one id sees the same random choices as the full run
+        let mut br = rng.fork();
         if !ctx.out.wanted(id) { continue; }
-        let (code, what) = check_batch(ctx, rng, pred, &b.x, xl);
+        let (code, what) = check_batch(ctx, &mut br, pred, &b.x, xl);
         let desc = format!(
             "{{\"predictor\": {}, \"instance\": {}, \"batch_kind\": {}, \"rows\": {}, \"cols\": {}, \"batch\": {}}}",
             jstr(model), jstr(inst), jstr(b.kind), b.x.nrows(), b.x.ncols(), jrows(&rows_f64(&b.x))
